@@ -53,6 +53,14 @@
 // os.Clearenv(), chdir("/"), close fds 0-2, setsid, umask - one call per action, all in one caller
 // (concurrent, forced, sequential); a launcher that keeps waiting although the daemon's done
 // record says Done() returned nil is found by the watchdog + at-rest proof (launch-never-returns).
+// (k) short-lived daemons: the handler returns right after Done() (kinds s0 / s5 / sf), the
+// process ends with status 0. natural; forced: done.flag is created by the supervisor once every
+// daemon has its done record and is gone or a zombie; frozen: the handler SIGSTOPs its launcher,
+// sees it stopped, calls Done() and ends - the supervisor SIGCONTs the launcher when the daemon
+// is a zombie, so the launcher resumes with the signal and the exit both pending. Oracle: nil
+// and the right pid (marker of that handler), predone present when Launch returns; a Launch
+// error after a successful Done() is the usual launch-error violation; liveness / orphan clauses
+// are not applicable and only counted.
 // A Launch that fails although no process ever ran its handler is decided, not left open: the
 // launcher is gone when Launch returns, so the handler can never run; the harness handlers always
 // reach Done() when run; unless the error is a resource refusal of the machine it is a
@@ -238,7 +246,9 @@ func runCase(cs Case, c *drv.Ctx, root string) (vd verdict) {
 		return verdict{inconclusive: "mkdir: " + err.Error()}
 	}
 	runs := make([]*groupRun, len(cs.Groups))
+	stopHelpers := make(chan struct{})
 	defer func() {
+		close(stopHelpers)
 		cleanup(runs, c)
 		os.RemoveAll(sdir)
 	}()
@@ -313,6 +323,9 @@ func runCase(cs Case, c *drv.Ctx, root string) (vd verdict) {
 		}
 		gr.cmd, gr.pgid, gr.guardW = cmd, cmd.Process.Pid, pw
 		go func(gr *groupRun) { gr.waitErr = gr.cmd.Wait(); close(gr.waited) }(gr)
+		if anyShortKind(gr.g.Kinds) {
+			go shortLivedHelper(gr, stopHelpers, c)
+		}
 	}
 	for _, gr := range runs {
 		if gr.startErr != nil {
@@ -515,6 +528,55 @@ func gateWindow(cs Case, runs []*groupRun, c *drv.Ctx) verdict {
 		os.WriteFile(filepath.Join(gr.dir, gateName), nil, 0o644)
 	}
 	return verdict{}
+}
+
+// shortLivedHelper serves the callers whose daemons end right after Done(). For each such
+// daemon it waits until the done record exists AND the process is gone or a zombie; then
+//   - a launcher that the handler froze (kind sf) is resumed with SIGCONT: its two events, the
+//     daemon's signal and the daemon's exit, are both pending at that moment;
+//   - in a forced schedule, once this holds for every daemon of the caller, done.flag is created
+//     (these daemons do not create it themselves): the launchers leave the pause hook with both
+//     events in the past.
+//
+// Only processes identified by pid and start time from a marker are signalled.
+func shortLivedHelper(gr *groupRun, stop <-chan struct{}, c *drv.Ctx) {
+	n := len(gr.g.Delays)
+	resumed := map[int]bool{}
+	flagDone := !gr.g.Forced
+	for {
+		select {
+		case <-stop:
+			return
+		default:
+		}
+		markers, dones := readDir(gr.dir)
+		finished := 0
+		for pid, m := range markers {
+			if !shortKind(gr.g.kind(m.Idx)) {
+				continue
+			}
+			if _, ok := dones[pid]; !ok {
+				continue
+			}
+			if st, same := sameProcess(pid, m.Start); same && st.alive() {
+				continue // still running
+			}
+			finished++
+			if gr.g.kind(m.Idx) == kindShortFz && !resumed[pid] {
+				if lst, same := sameProcess(m.Launcher, m.LauncherStart); same && lst.State == "T" {
+					syscall.Kill(m.Launcher, syscall.SIGCONT)
+					c.Add("frozen_launchers_resumed_with_signal_and_exit_pending", 1)
+				}
+				resumed[pid] = true
+			}
+		}
+		if !flagDone && finished >= n {
+			os.WriteFile(filepath.Join(gr.dir, flagName), nil, 0o644)
+			c.Add("short_lived_forced_flags_created_after_daemons_were_gone", 1)
+			flagDone = true
+		}
+		time.Sleep(time.Millisecond)
+	}
 }
 
 // progCopy puts one copy of the monitor binary at <root>/bin/sub/daemonlaunch-prog (plus a symlink
@@ -751,7 +813,7 @@ func judgeHang(cs Case, gr *groupRun) verdict {
 		m, ok := markerOfIdx(markers, i)
 		d, okd := dones[m.Pid]
 		dst, dsame := sameProcess(m.Pid, m.Start)
-		if !ok || !okd || !d.Called || d.Err != "" || !dsame || !dst.alive() {
+		if !ok || !okd || !d.Called || d.Err != "" || ((!dsame || !dst.alive()) && !shortKind(gr.g.kind(i))) {
 			incon = append(incon, fmt.Sprintf("%s not returned after %v, but no live daemon that returned from a successful Done() (marker=%v done=%+v)", describe(cs, gr, i), launchWatchdog, ok, d))
 			continue
 		}
@@ -998,7 +1060,7 @@ func judgeExited(cs Case, gr *groupRun, c *drv.Ctx) verdict {
 			} else if !r.Failed {
 				c.Add("forced_launches_released_without_flag", 1) // the hook's own 5 s bound ended the pause
 			}
-			if gr.g.LingerMs == 0 {
+			if gr.g.LingerMs == 0 && !shortKind(gr.g.kind(i)) {
 				// hook witness (only where the launcher exits at once after its wait): the launcher
 				// was still the daemon's parent 20 ms after Done() was called
 				c.Add("forced_launches_nolinger", 1)
@@ -1070,6 +1132,14 @@ func judgeExited(cs Case, gr *groupRun, c *drv.Ctx) verdict {
 		if r.Marker.Pid != r.Pid || r.Marker.Idx != i || r.Marker.Seq != cs.Id || r.PreDone.Pid != r.Pid || r.PreDone.Idx != i || r.PreDone.Seq != cs.Id {
 			return verdict{key: "wrong-pid@" + sched, expected: expOK,
 				observed: fmt.Sprintf("Launch returned (%d, nil) but that process is %+v / %+v (scenario %s)", r.Pid, *r.Marker, *r.PreDone, cs.Id)}
+		}
+		if shortKind(gr.g.kind(i)) {
+			// the daemon is finished by design: right pid, marker and predone at return are all
+			// that can be demanded; liveness and orphan clauses are not applicable
+			c.Add("short_lived_launches_returned_right_pid_after_Done", 1)
+			c.Add("short_lived_liveness_clauses_not_applicable", 1)
+			c.SetAdd("short_lived_daemon_state_at_return", stateWord(r.Stat))
+			continue
 		}
 		m := *r.Marker
 		expRun := fmt.Sprintf("after %s returned (%d, nil) the daemon keeps running, the launcher %d is gone and the daemon is not a child of the caller %d", what, r.Pid, m.Launcher, callerPid)
@@ -1176,6 +1246,13 @@ func doneWord(inDone bool) string {
 	return "returned from Done() with err=nil"
 }
 
+func stateWord(st pstat) string {
+	if !st.Exists {
+		return "gone"
+	}
+	return st.State
+}
+
 func aliveWord(b bool) string {
 	if b {
 		return "running"
@@ -1190,7 +1267,7 @@ type mon struct{}
 func (mon) Name() string { return "daemonlaunch" }
 
 func (mon) Level(string) (string, string) {
-	return "exploration", "scenarios = caller processes calling daemon.Launch 1, 2 or 8 times concurrently; schedules: natural timing with the handler sleeping 0/5/200 ms before Done(); forced early Done() (launcher held by the verif pause hook right after cmd.Start() until every daemon of the caller returned from Done()); concurrent calls all natural, all forced, or one forced and one natural caller at the same time; all of these again with a launcher process that lingers 50/300 ms between daemon.Run() returning and os.Exit(0). histories of 6..12 calls in one caller process (sequential or in steps of 1-3 concurrent calls, GOMAXPROCS default or 1) in which handlers that fail before Done() (exit 3, exit 0, panic) are interleaved with healthy ones; daemons that, after Done(), write lines to stderr and stdout (also through package log, once at once and three times after the launcher is gone) and read stdin before their liveness is judged; handler names from the edges (empty, blank, 'a b', 'x=y', non-ASCII, 200 bytes, prefixes of each other, the ENV_DAEMON_FLAG values); nested launches (a daemon, after Done(), launches the next handler from inside, depth 2 and in thorough 3, judged by the same post-conditions); callers with a stale ENV_DAEMON_FLAG in their environment; callers started by relative path from their own or the parent directory, by bare name through PATH, through a symlink, or with another working directory; handler names containing separator characters (comma, semicolon, colon, bar, newline, tab, backslash, percent, leading dash); handlers that, right before Done(), unset or overwrite their ENV_DAEMON_* variables, clear the environment, chdir to /, close fds 0-2, setsid or change the umask; slow daemons: the handler waits before Done() at a gate that the supervisor keeps closed for 8 s (quick) or 8/20/45 s (thorough) - Launch must not have returned (no ret file of the caller) at the moment the supervisor decides to open the gate, the seconds being exposure only; in the same window further callers whose launcher receives one foreign signal (TERM, HUP, USR1, WINCH; thorough also USR2, QUIT, CONT, URG) while the gate is closed - Launch may fail or keep waiting but must not report success before the gate opens. Other timings of the three processes are sampled by repetition only. distinct_nontrivial = distinct (schedule class, forced flag and delay vector per caller) shapes"
+	return "exploration", "scenarios = caller processes calling daemon.Launch 1, 2 or 8 times concurrently; schedules: natural timing with the handler sleeping 0/5/200 ms before Done(); forced early Done() (launcher held by the verif pause hook right after cmd.Start() until every daemon of the caller returned from Done()); concurrent calls all natural, all forced, or one forced and one natural caller at the same time; all of these again with a launcher process that lingers 50/300 ms between daemon.Run() returning and os.Exit(0). histories of 6..12 calls in one caller process (sequential or in steps of 1-3 concurrent calls, GOMAXPROCS default or 1) in which handlers that fail before Done() (exit 3, exit 0, panic) are interleaved with healthy ones; daemons that, after Done(), write lines to stderr and stdout (also through package log, once at once and three times after the launcher is gone) and read stdin before their liveness is judged; handler names from the edges (empty, blank, 'a b', 'x=y', non-ASCII, 200 bytes, prefixes of each other, the ENV_DAEMON_FLAG values); nested launches (a daemon, after Done(), launches the next handler from inside, depth 2 and in thorough 3, judged by the same post-conditions); callers with a stale ENV_DAEMON_FLAG in their environment; callers started by relative path from their own or the parent directory, by bare name through PATH, through a symlink, or with another working directory; handler names containing separator characters (comma, semicolon, colon, bar, newline, tab, backslash, percent, leading dash); handlers that, right before Done(), unset or overwrite their ENV_DAEMON_* variables, clear the environment, chdir to /, close fds 0-2, setsid or change the umask; short-lived daemons (marker, predone, Done(), done record, then the process ends with status 0 at once or 3 ms later; 1 and 4 concurrent calls): natural, forced (the supervisor releases the paused launcher only after the daemon is gone), and with the launcher frozen by SIGSTOP from before Done() until the daemon is a zombie and then resumed, so that the signal and the daemon's exit are both pending and are handled in either order - judged: Launch returns nil and the pid of the process that ran the handler, predone present at return; liveness and orphan clauses are not applicable to a daemon that is finished by design and are counted as such; slow daemons: the handler waits before Done() at a gate that the supervisor keeps closed for 8 s (quick) or 8/20/45 s (thorough) - Launch must not have returned (no ret file of the caller) at the moment the supervisor decides to open the gate, the seconds being exposure only; in the same window further callers whose launcher receives one foreign signal (TERM, HUP, USR1, WINCH; thorough also USR2, QUIT, CONT, URG) while the gate is closed - Launch may fail or keep waiting but must not report success before the gate opens. Other timings of the three processes are sampled by repetition only. distinct_nontrivial = distinct (schedule class, forced flag and delay vector per caller) shapes"
 }
 
 func (mon) Assumptions(string) []string {
@@ -1233,6 +1310,10 @@ var classes = []string{
 	// before Done() the handler cleans / changes its own process: unset or overwrite ENV_DAEMON_*,
 	// os.Clearenv(), chdir("/"), close fds 0-2, setsid, umask - one call per action
 	"q-pre-natural", "q-pre-forced", "q-pre-seq",
+	// short-lived daemons: Done(), done record, exit 0 (at once or 3 ms later); natural, forced
+	// (supervisor releases the paused launcher after the daemon is gone), and with a launcher
+	// frozen from before Done() until the daemon is gone; 1 and 4 concurrent calls
+	"k-short-natural-1", "k-short-natural-4", "k-short-forced-1", "k-short-forced-4", "k-short-frozen-1", "k-short-frozen-4",
 	// nested: the daemon of handler 0 launches handler 1 from inside (nest3: and that one handler 2)
 	"t-nest2-natural", "t-nest2-forced", "t-nest3-natural", "t-nest3-forced",
 	// the caller has a stale ENV_DAEMON_FLAG (isDaemon / isLauncher / junk) in its environment
@@ -1255,6 +1336,11 @@ func runsFor(class, tier string) (runs, parts int) {
 	switch class[0] {
 	case 'n', 'q':
 		runs = 3
+	case 'k':
+		runs = 6
+		if strings.Contains(class, "frozen") {
+			runs = 12
+		}
 	case 't':
 		if strings.Contains(class, "nest3") && tier != "thorough" {
 			return 0, 0
@@ -1328,6 +1414,21 @@ func genCase(class, tier string, seed int64, part, run int) Case {
 		if f[1] == "seq" {
 			for range g.Delays {
 				g.Steps = append(g.Steps, 1)
+			}
+		}
+		cs.Groups = []Group{g}
+	case "k":
+		n, _ := strconv.Atoi(f[3])
+		g := Group{Forced: f[2] == "forced", Delays: make([]int, n), Kinds: make([]string, n)}
+		for i := range g.Kinds {
+			g.Delays[i] = delayChoices[r.Intn(2)]
+			switch {
+			case f[2] == "frozen":
+				g.Kinds[i] = kindShortFz
+			case r.Intn(2) == 0:
+				g.Kinds[i] = kindShort0
+			default:
+				g.Kinds[i] = kindShort5
 			}
 		}
 		cs.Groups = []Group{g}
